@@ -22,7 +22,10 @@ RULE = ("cases: histories of 2-7 steps on ONE operator object (PD operators of e
         "the answer of the same query on a freshly built copy (same derivations, no earlier queries) under the same settings and RNG state; "
         "(b) every entry of the memo dictionaries of the history object and of the operators derived from it is a valid answer for its key on "
         "the matrix its owner denotes (Cholesky factor in the keyed orientation, roots multiply out to the matrix / its inverse, eigen pairs "
-        "reconstruct it). Cache hits are counted (memo getters wrapped); a run without hits is inconclusive. distinct key = (root class, "
+        "reconstruct it; cached dense values, diagonals, sizes); (c) memo entries of the whole lineage (history object, the operators it was "
+        "derived from and into) are snapshotted when first seen and are bit-identical at the end of the history. Samples are drawn but not "
+        "compared (roots are not unique); answers whose history-free value changes with the RNG state are counted as not comparable. "
+        "Cache hits are counted (memo getters wrapped); a run without hits is inconclusive. distinct key = (root class, "
         "query, position in history, previous step, settings key)")
 ASSUMPTIONS = ["a fresh build of the same spec is the history-free reference", "canonical forms remove the legitimate non-uniqueness of roots and eigenvectors",
                "tolerances: direct 1e-7 (f64) / 5e-3 (f32); 5e-3 when a Lanczos-based result is involved (lanczos.* hook events)"]
